@@ -414,8 +414,8 @@ def descP (snap : Snap) (o : Opts) (st : ISt) (e : Entry) : Option (Outcome Entr
 /-- the yield decision of `process` -/
 def finP (o : Opts) (depth : Nat) (e : Entry) (st' : ISt) : Option (Outcome Entry) × ISt :=
   if depth < o.minDepth then (none, st')
-  else if e.dir ∧ o.contentsFirst then (none, { st' with deferred := e :: st'.deferred })
   else if (o.files ∧ !e.file) ∨ (!o.files ∧ o.dirs ∧ !e.dir) then (none, st')
+  else if e.dir ∧ o.contentsFirst then (none, { st' with deferred := e :: st'.deferred })
   else (some (.ok e), st')
 
 def procP (snap : Snap) (o : Opts) (st : ISt) (e : Entry) : Option (Outcome Entry) × ISt :=
@@ -711,6 +711,18 @@ def DomF (o : Opts) : Prop :=
   (o.contentsFirst = false ∧ KindOk o) ∨
   (o.contentsFirst = true ∧ o.minDepth = 0 ∧ o.files = false ∧ o.dirs = false)
 
+/-- the wider option domain after the repair of `process` (a directory is deferred only if it
+    passed the kind filter): `contents_first` with `min_depth = 0` and no filter or `dirs()` —
+    every directory passes, so the deferred stack still mirrors the stack of open directories -/
+def DomFW (o : Opts) : Prop :=
+  (o.contentsFirst = false ∧ KindOk o) ∨
+  (o.contentsFirst = true ∧ o.minDepth = 0 ∧ o.files = false)
+
+theorem DomF.toW {o : Opts} (h : DomF o) : DomFW o := by
+  rcases h with h | ⟨h1, h2, h3, _⟩
+  · exact Or.inl h
+  · exact Or.inr ⟨h1, h2, h3⟩
+
 theorem finP_pf {o : Opts} (hcf : o.contentsFirst = false) (hk : KindOk o) (d : Nat) (x : Entry) (s : ISt) :
     finP o d x s = (if selected o x d then some (.ok x) else none, s) := by
   unfold finP
@@ -727,13 +739,17 @@ theorem finP_pf {o : Opts} (hcf : o.contentsFirst = false) (hk : KindOk o) (d : 
       · rename_i ha hb; exact absurd ⟨ha, hb⟩ this
 
 theorem finP_cf {o : Opts} (hcf : o.contentsFirst = true) (hmin : o.minDepth = 0) (hf : o.files = false)
-    (hd : o.dirs = false) (d : Nat) (x : Entry) (s : ISt) :
-    finP o d x s = if x.dir then (none, { s with deferred := x :: s.deferred }) else (some (.ok x), s) := by
+    (d : Nat) (x : Entry) (s : ISt) :
+    finP o d x s = if x.dir then (none, { s with deferred := x :: s.deferred })
+      else if o.dirs then (none, s) else (some (.ok x), s) := by
   unfold finP
-  simp [hcf, hmin, hf, hd]
+  cases hxd : x.dir <;> cases hdd : o.dirs <;> simp [hcf, hmin, hf]
 
-theorem selected_cf {o : Opts} (hmin : o.minDepth = 0) (hf : o.files = false) (hd : o.dirs = false) (d : Nat)
-    (x : Entry) : selected o x d = true := by simp [selected, hmin, hf, hd]
+theorem selected_cf {o : Opts} (hmin : o.minDepth = 0) (hf : o.files = false) (d : Nat)
+    (x : Entry) (hxd : x.dir = true) : selected o x d = true := by simp [selected, hmin, hf, hxd]
+
+theorem selected_cf_file {o : Opts} (hmin : o.minDepth = 0) (hf : o.files = false) (d : Nat)
+    (x : Entry) (hxd : x.dir = false) : selected o x d = !o.dirs := by simp [selected, hmin, hf, hxd]
 
 theorem after_fin (snap : Snap) (o : Opts) (m : Nat) (c : Bool) (x : Entry) (s : ISt) (acc : List Entry) :
     after snap o m (if c then some (.ok x) else none, s) acc =
@@ -741,23 +757,26 @@ theorem after_fin (snap : Snap) (o : Opts) (m : Nat) (c : Bool) (x : Entry) (s :
   cases c <;> simp [after]
 
 /-- an entry that is not entered: yielded or not, at most one extra step (the deferred yield) -/
-theorem fin_leaf {snap : Snap} {o : Opts} (hdom : DomF o) (b : Bool) (od : Nat) (its : List EIter) (D : List Entry)
+theorem fin_leaf {snap : Snap} {o : Opts} (hdom : DomFW o) (b : Bool) (od : Nat) (its : List EIter) (D : List Entry)
     (hD : o.contentsFirst = true → D.length = its.length) (x : Entry) :
     ∃ T, T ≤ 1 ∧ ∀ n acc, after snap o (n + T) (finP o its.length x ⟨b, od, its, D⟩) acc =
       drive snap o n ⟨b, od, its, D⟩ ((if selected o x its.length then [x] else []).reverse ++ acc) := by
-  rcases hdom with ⟨hcf, hk⟩ | ⟨hcf, hmin, hf, hd⟩
+  rcases hdom with ⟨hcf, hk⟩ | ⟨hcf, hmin, hf⟩
   · exact ⟨0, by omega, fun n acc => by rw [finP_pf hcf hk, after_fin]; rfl⟩
-  · rw [finP_cf hcf hmin hf hd, selected_cf hmin hf hd]
+  · rw [finP_cf hcf hmin hf]
     cases hxd : x.dir with
     | true =>
+      rw [selected_cf hmin hf _ x hxd]
       refine ⟨1, by omega, fun n acc => ?_⟩
       simp only [if_true, after]
       rw [drive_def hcf _ _ _ _ _ _ _ (by have := hD hcf; simp; omega)]
       simp
-    | false => exact ⟨0, by omega, fun n acc => by simp [after]⟩
+    | false =>
+      rw [selected_cf_file hmin hf _ x hxd]
+      cases hdd : o.dirs <;> exact ⟨0, by omega, fun n acc => by simp [after]⟩
 
 /-- an entry that is entered: what happens before its contents (`pre`) and after them (`post`) -/
-theorem fin_enter {snap : Snap} {o : Opts} (hdom : DomF o) (b : Bool) (its : List EIter) (D : List Entry)
+theorem fin_enter {snap : Snap} {o : Opts} (hdom : DomFW o) (b : Bool) (its : List EIter) (D : List Entry)
     (hD : o.contentsFirst = true → D.length = its.length) (x : Entry) (hxd : x.dir = true) :
     ∃ (D' pre post : List Entry), (o.contentsFirst = true → D'.length = its.length + 1) ∧ post.length ≤ 1 ∧
       (∀ od1 fr m acc, after snap o m (finP o its.length x ⟨b, od1, fr :: its, D⟩) acc =
@@ -768,7 +787,7 @@ theorem fin_enter {snap : Snap} {o : Opts} (hdom : DomF o) (b : Bool) (its : Lis
           else (if selected o x its.length then [x] else []) ++ below) = pre ++ below ++ post) ∧
       (∀ below : List Entry, (if o.contentsFirst && x.dir then below
           else (if selected o x its.length then [x] else []) ++ below) = pre ++ below) := by
-  rcases hdom with ⟨hcf, hk⟩ | ⟨hcf, hmin, hf, hd⟩
+  rcases hdom with ⟨hcf, hk⟩ | ⟨hcf, hmin, hf⟩
   · refine ⟨D, if selected o x its.length then [x] else [], [], (fun h => by rw [hcf] at h; cases h), by simp, ?_, ?_, ?_, ?_⟩
     · intro od1 fr m acc; rw [finP_pf hcf hk, after_fin]
     · intro od2 n acc; rfl
@@ -776,12 +795,12 @@ theorem fin_enter {snap : Snap} {o : Opts} (hdom : DomF o) (b : Bool) (its : Lis
     · intro below; simp [hcf]
   · refine ⟨x :: D, [], [x], (fun _ => by have := hD hcf; simp; omega), by simp, ?_, ?_, ?_, ?_⟩
     · intro od1 fr m acc
-      rw [finP_cf hcf hmin hf hd]
+      rw [finP_cf hcf hmin hf]
       simp [hxd, after]
     · intro od2 n acc
       rw [List.length_singleton, drive_def hcf _ _ _ _ _ _ _ (by have := hD hcf; simp; omega)]
       simp
-    · intro below; simp [hcf, hxd, selected_cf hmin hf hd]
+    · intro below; simp [hcf, hxd, selected_cf hmin hf _ x hxd]
     · intro below; simp [hcf, hxd]
 
 /-- number of entries the full walk visits (an upper bound when an error cuts it short) -/
@@ -855,7 +874,7 @@ theorem seq_sim (k : Nat) (b : Bool) (tp : FsPath) (tc : Bool) (below : List EIt
         rw [← Nat.add_assoc, hdc, ← Nat.add_assoc, hT, hT2]
         simp
 
-theorem sub_sim (hwf : SnapWf snap) (hfol : o.follow = true) (hord : OrdOk o) (hdom : DomF o) (b : Bool) :
+theorem sub_sim (hwf : SnapWf snap) (hfol : o.follow = true) (hord : OrdOk o) (hdom : DomFW o) (b : Bool) :
     ∀ (k : Nat) (D : List Entry) (x : Entry) (od : Nat) (its : List EIter),
       (o.contentsFirst = true → D.length = its.length) → PresOk snap o x →
       mu snap o (its.map (·.path)) x its.length < k →
@@ -980,7 +999,7 @@ def fuelNeed (snap : Snap) (o : Opts) (rootE : Entry) : Nat :=
 /-- links followed: with enough fuel (`fuelNeed`) the machine yields exactly the recursive walk, and
     ends with the walk's error (if any) -/
 theorem runIter_exact {snap : Snap} (hwf : SnapWf snap) {o : Opts} (hfol : o.follow = true)
-    (hord : OrdOk o) (hdom : DomF o) {rootE : Entry} (hr : InSnap snap rootE) :
+    (hord : OrdOk o) (hdom : DomFW o) {rootE : Entry} (hr : InSnap snap rootE) :
     ∀ f, fuelNeed snap o rootE ≤ f → runIter snap o noPre rootE stepCons f {} [] =
       (specOutcome (entriesSpecF snap o rootE).2, (entriesSpecF snap o rootE).1.reverse) := by
   have hx : PresOk snap o (present o rootE) := ⟨rootE, hr, rfl⟩
@@ -1006,7 +1025,7 @@ theorem runIter_exact {snap : Snap} (hwf : SnapWf snap) {o : Opts} (hfol : o.fol
 
 /-- `collectEntries` (fuel `travFuel`) when `travFuel` is enough -/
 theorem collectEntries_exactF {snap : Snap} (hwf : SnapWf snap) {o : Opts} (hfol : o.follow = true)
-    (hord : OrdOk o) (hdom : DomF o) {rootE : Entry} (hr : InSnap snap rootE)
+    (hord : OrdOk o) (hdom : DomFW o) {rootE : Entry} (hr : InSnap snap rootE)
     (hfuel : fuelNeed snap o rootE ≤ travFuel snap) :
     collectEntries snap o rootE =
       match entriesSpecF snap o rootE with
@@ -1023,6 +1042,7 @@ theorem collectEntries_exactF {snap : Snap} (hwf : SnapWf snap) {o : Opts} (hfol
 /-! ### corollaries used by Props/C08F -/
 
 instance (o : Opts) : Decidable (DomF o) := by unfold DomF; infer_instance
+instance (o : Opts) : Decidable (DomFW o) := by unfold DomFW; infer_instance
 
 theorem fuelF_gt (snap : Snap) : snap.length + 1 < fuelF snap := by
   unfold fuelF
@@ -1242,9 +1262,9 @@ theorem finP_cases (o : Opts) (d : Nat) (x : Entry) (s : ISt) :
   split
   · exact ⟨none, s.deferred, rfl, Or.inl rfl, by omega⟩
   · split
-    · exact ⟨none, x :: s.deferred, rfl, Or.inl rfl, by simp⟩
+    · exact ⟨none, s.deferred, rfl, Or.inl rfl, by omega⟩
     · split
-      · exact ⟨none, s.deferred, rfl, Or.inl rfl, by omega⟩
+      · exact ⟨none, x :: s.deferred, rfl, Or.inl rfl, by simp⟩
       · exact ⟨some (.ok x), s.deferred, rfl, Or.inr rfl, by omega⟩
 
 /-- one `process`: an error, or a state of smaller potential (by at least one after the item is
@@ -1429,7 +1449,7 @@ theorem runIter_map {β} (h : Entry → β) (snap : Snap) (o : Opts) (rootE : En
 theorem travM_exact {env : Env} {p : Str} {r : TravReq} {s : State} {k : FsPath} {rootE : Entry} {snap : Snap}
     (habs : absM env p s = (.ok k, s)) (hent : entriesOf s k = .ok (rootE, snap))
     (hwf : SnapWf snap) (hroot : InSnap snap rootE) (hfol : r.opts.follow = true) (hord : OrdOk r.opts)
-    (hdom : DomF r.opts) (hfuel : fuelNeed snap r.opts rootE ≤ travFuel snap) :
+    (hdom : DomFW r.opts) (hfuel : fuelNeed snap r.opts rootE ≤ travFuel snap) :
     travM env p r s =
       (.ok (.trav ((entriesSpecF snap r.opts rootE).1.map (·.path)) (entriesSpecF snap r.opts rootE).2), s) := by
   have hrun := runIter_exact hwf hfol hord hdom hroot (travFuel snap) hfuel
